@@ -40,7 +40,7 @@ class C04(Check):
         "at least one mutating operation addressed bucket A executed while another bucket held events; distinct = "
         "distinct (backend, executed op-kind sequence)"
     )
-    expected_probes = ["foreign_id_used", "frame_checked_with_populated_other", "op_rejected", "tie_endtime_across_buckets", "restart_clean", "observation_deferred", "frame_checked_with_buffered_writes_elsewhere", "insert_through_stale_handle"]
+    expected_probes = ["foreign_id_used", "frame_checked_with_populated_other", "op_rejected", "tie_endtime_across_buckets", "restart_clean", "observation_deferred", "frame_checked_with_buffered_writes_elsewhere", "insert_through_stale_handle", "event_object_reused"]
     assumptions = [
         "callers are serialised (one API call at a time), as aw-server does",
         "the unwindowed read get(limit=-1) and buckets() are faithful observers of a bucket (C02/C05 cover that)",
@@ -54,7 +54,7 @@ class C04(Check):
         buckets = gen.bucket_ids(r, nb, unicode_ok=True)
         lat = gen.lattice(rs["lat"])
         lat["n"] = min(lat["n"], 12)
-        cfg = {"lat": lat, "alphabet": r.choice([1, 2, 3]), "bulk_max": r.choice([3, 8, 30, 120]), "upsert_p": 0.2, "foreign_p": r.choice([0.15, 0.3, 0.5]), "never_p": 0.1, "wild_meta": False}
+        cfg = {"lat": lat, "alphabet": r.choice([1, 2, 3]), "bulk_max": r.choice([3, 8, 30, 120]), "upsert_p": 0.2, "foreign_p": r.choice([0.15, 0.3, 0.5]), "never_p": 0.1, "wild_meta": False, "reuse_p": r.choice([0.0, 0.15, 0.4])}
         steps = actors.creates(rs["meta"], buckets, cfg)
         # populate: every bucket gets a few events on the shared lattice
         pr = rs["populate"]
@@ -93,7 +93,7 @@ class C04(Check):
         # deferred observation: after a plain insert the harness does NOT read (a read would flush the
         # lazily-committing store); the expected contents are carried forward instead, so the next
         # operation on another bucket runs while these acknowledged writes are still buffered
-        if self._defer and op in ("insert1", "insertN") and out.get("exc") is None and all("upsert" not in it and "foreign" not in it for it in step.get("evs", [])):
+        if self._defer and op in ("insert1", "insertN") and not step.get("reuse_obj") and out.get("exc") is None and all("upsert" not in it and "foreign" not in it for it in step.get("evs", [])):
             evs = [step["ev"]] if op == "insert1" else [it["ev"] for it in step["evs"]]
             self._pending[step["b"]].extend(expect_tuple(E) for E in evs)
             world.probes["observation_deferred"] += 1
